@@ -40,7 +40,8 @@ class LeafError(Exception):
 INT_TYPES = {
     'unsigned char': (8, False), 'unsigned short': (16, False), 'unsigned int': (32, False),
     'unsigned long': (64, False), 'unsigned long long': (64, False),
-    'signed char': (8, True), 'short': (16, True), 'int': (32, True), 'long': (64, True), 'long long': (64, True),
+    'signed char': (8, True), 'char': (8, True),      # plain char is signed on the x86-64 target clang is run for
+    'short': (16, True), 'int': (32, True), 'long': (64, True), 'long long': (64, True),
 }
 COQ_RESERVED = {'end', 'at', 'in', 'as', 'if', 'then', 'else', 'fun', 'let', 'match', 'with', 'return', 'forall', 'exists',
                 'fix', 'cofix', 'for', 'where', 'using', 'Type', 'Prop', 'Set', 'struct', 'mod', 'is', 'by'}
@@ -48,7 +49,9 @@ COQ_RESERVED = {'end', 'at', 'in', 'as', 'if', 'then', 'else', 'fun', 'let', 'ma
 # read primitives: name -> (projection, expected body callee).  The body of each is checked to be exactly
 #   return <callee>((uint8_t *)p + base);
 READ_PRIMS = {'read_uoffset': ('p_rd32', '__flatbuffers_uoffset_read_from_pe'),
-              'read_voffset': ('p_rd16', '__flatbuffers_voffset_read_from_pe')}
+              'read_voffset': ('p_rd16', '__flatbuffers_voffset_read_from_pe'),
+              'read_thash': ('p_rd32', '__flatbuffers_thash_read_from_pe')}
+BYTE_ELEMS = (('void',), ('int', 8, False), ('int', 8, True))
 
 FAMILIES = {
     'verifier': {
@@ -56,6 +59,17 @@ FAMILIES = {
         'structs': {'flatcc_table_verifier_descriptor': ('c_td', 'td_')},
         'functions': ['check_header', 'verify_struct', 'read_vt_entry', 'verify_field', 'get_offset_field',
                       'verify_string', 'verify_vector'],
+        'enum_prefix': ('flatcc_verify_error_', 'E_'),
+        'imports': ['From Flatcc.Generated Require Import Consts.'],
+    },
+    'ident': {
+        # identifiers and buffer-header acceptors (C17); flatcc_identifier.h is part of the verifier.c translation unit
+        'src': 'src/runtime/verifier.c',
+        'structs': {},
+        'functions': ['flatbuffers_type_hash_from_string', 'flatbuffers_type_hash_from_identifier',
+                      'flatbuffers_identifier_from_type_hash', 'read_thash_identifier',
+                      'flatcc_verify_buffer_header', 'flatcc_verify_buffer_header_with_size',
+                      'flatcc_verify_typed_buffer_header', 'flatcc_verify_typed_buffer_header_with_size'],
         'enum_prefix': ('flatcc_verify_error_', 'E_'),
         'imports': ['From Flatcc.Generated Require Import Consts.'],
     },
@@ -145,6 +159,8 @@ def coq_ident(name):
 class Func:
     """translation of one FunctionDecl"""
 
+    ncells = None
+
     def __init__(self, tr, decl, guard=False):
         """guard=True: translate only the straight-line prefix of the body up to its FIRST if statement and return
         that statement's condition as a bool (used for the range tests at the head of functions whose remainder is
@@ -171,7 +187,15 @@ class Func:
     # ------------------------------------------------------------------ effects pre-scan
     def scan_effects(self, node):
         k = node.get('kind')
+        if k == 'BinaryOperator' and node.get('opcode') == '=':
+            l = node['inner'][0]
+            while l.get('kind') == 'ParenExpr': l = l['inner'][0]
+            if l.get('kind') == 'ArraySubscriptExpr':        # a store into an out-array is not a read
+                return self.scan_effects(l['inner'][1]) or self.scan_effects(node['inner'][1])
         if k == 'ArraySubscriptExpr': return True
+        if k == 'UnaryOperator' and node.get('opcode') == '*' and parse_type(node['type'])[0] == 'int' and \
+                parse_type(node['inner'][0]['type']) in (('ptr', ('int', 8, False)), ('ptr', ('int', 8, True))):
+            return True
         if k == 'CallExpr':
             cn = self.callee_name(node)
             if cn in READ_PRIMS: return True
@@ -193,7 +217,7 @@ class Func:
         fty = d['type']['qualType']
         rq = fty[:fty.index('(')].strip()
         self.ret_ty = self.tr.ast.resolve_typedefs(rq)
-        if self.ret_ty[0] != 'int': self.err(d, 'return type %s not an integer type' % rq)
+        if self.ret_ty[0] not in ('int', 'void'): self.err(d, 'return type %s not an integer type or void' % rq)
         body = [c for c in d['inner'] if c.get('kind') == 'CompoundStmt'][0]
         if self.guard:
             pre = []
@@ -205,7 +229,7 @@ class Func:
             body = {'kind': 'CompoundStmt', 'inner': pre}
         self.effect = self.scan_effects(body)
         if self.guard and self.effect: self.err(d, 'guard translation of a prefix that reads memory')
-        env, params, self.outs = {}, [], []
+        env, params, self.outs, self.outarrs = {}, [], [], []
         for p in d['inner']:
             if p.get('kind') != 'ParmVarDecl': continue
             t = parse_type(p['type'])
@@ -213,8 +237,12 @@ class Func:
             if t[0] == 'int':
                 env[p['id']] = {'ty': t, 'val': nm, 'kind': 'int'}
                 params.append((nm, 'Z', p['type']['qualType']))
-            elif t[0] == 'ptr' and t[1][0] == 'void' or t == ('ptr', ('int', 8, False)):
-                env[p['id']] = {'ty': t, 'val': nm, 'kind': 'ptr'}
+            elif t[0] == 'ptr' and t[1] in BYTE_ELEMS and p['id'] in self.written_arrays(body):
+                # an array the function only writes, through constant subscripts: one result per written cell
+                env[p['id']] = {'ty': t, 'val': nm, 'kind': 'outarr', 'cells': {}, 'name_hint': p.get('name', 'arg')}
+                self.outarrs.append(p['id'])
+            elif t[0] == 'ptr' and t[1] in BYTE_ELEMS:
+                env[p['id']] = {'ty': t, 'val': nm, 'off': None, 'kind': 'ptr'}
                 params.append((nm, 'cptr', p['type']['qualType']))
             elif t[0] == 'ptr' and t[1][0] == 'struct' and t[1][1] in self.tr.records:
                 env[p['id']] = {'ty': t, 'val': nm, 'kind': 'struct'}
@@ -227,7 +255,10 @@ class Func:
                 self.err(p, 'parameter %s of unsupported type %s' % (p.get('name'), p['type']['qualType']))
         self.params = params
         text = self.stmts(list(body.get('inner', [])), env, 1)
-        rty = 'Z' if not self.outs else '(' + ' * '.join(['Z'] * (1 + len(self.outs))) + ')'
+        if self.outarrs and self.ncells is None: self.err(d, 'no return reached')
+        nres = (1 if self.ret_ty[0] == 'int' else 0) + len(self.outs) + (self.ncells or 0)
+        if nres == 0: self.err(d, 'void function without outputs')
+        rty = 'Z' if nres == 1 else '(' + ' * '.join(['Z'] * nres) + ')'
         if self.effect: rty = 'option ' + rty
         if self.guard:
             if self.outs: self.err(d, 'guard translation of a function with out-parameters')
@@ -243,9 +274,38 @@ class Func:
     def ind(self, depth): return '  ' * depth
 
     def result(self, val, env):
-        parts = [val] + [self.getvar_raw(env, o) for o in self.outs]
+        parts = ([val] if val is not None else []) + [self.getvar_raw(env, o) for o in self.outs]
+        n = 0
+        for a in self.outarrs:
+            cells = env[a]['cells']
+            if sorted(cells) != list(range(len(cells))) or not cells:
+                raise LeafError('%s: the written cells of %s are not 0..n-1 on every path' % (self.name, env[a]['name_hint']))
+            parts += [cells[i] for i in range(len(cells))]
+            n += len(cells)
+        if self.outarrs:
+            if self.ncells not in (None, n): raise LeafError('%s: different numbers of cells written on different paths' % self.name)
+            self.ncells = n
         r = parts[0] if len(parts) == 1 else '(' + ', '.join(parts) + ')'
         return ('Some %s' % self.paren(r)) if self.effect else r
+
+    def written_arrays(self, body):
+        """ids of pointer parameters that appear as `p[k] = e`"""
+        if not hasattr(self, '_warr'):
+            out = set()
+
+            def walk(n):
+                if n.get('kind') == 'BinaryOperator' and n.get('opcode') == '=':
+                    l = n['inner'][0]
+                    while l.get('kind') == 'ParenExpr': l = l['inner'][0]
+                    if l.get('kind') == 'ArraySubscriptExpr':
+                        b = l['inner'][0]
+                        while b.get('kind') in ('ParenExpr', 'ImplicitCastExpr'): b = b['inner'][0]
+                        if b.get('kind') == 'DeclRefExpr': out.add(b['referencedDecl']['id'])
+                for c in n.get('inner', []):
+                    if isinstance(c, dict): walk(c)
+            walk(body)
+            self._warr = out
+        return self._warr
 
     def getvar_raw(self, env, did):
         v = env[did]['val']
@@ -265,6 +325,8 @@ class Func:
     def stmts(self, sts, env, depth):
         """translate a statement list to a Gallina expression text; falling off the end is an error"""
         if not sts:
+            if self.ret_ty[0] == 'void' and not self.guard:
+                return self.ind(depth) + self.result(None, env)
             raise LeafError('%s: control reaches the end of the function without a return' % self.name)
         s, rest = sts[0], sts[1:]
         k = s.get('kind')
@@ -290,8 +352,16 @@ class Func:
                 if v.get('kind') != 'VarDecl': self.err(v, 'declaration of something that is not a variable')
                 if v.get('storageClass'): self.err(v, 'static/extern local')
                 t = parse_type(v['type'])
-                if t[0] != 'int': self.err(v, 'local %s of non-integer type %s' % (v.get('name'), v['type']['qualType']))
                 init = [c for c in v.get('inner', []) if isinstance(c, dict) and 'kind' in c]
+                if t[0] == 'ptr' and t[1] in BYTE_ELEMS:
+                    # a local byte pointer is an alias: (pointer record, exact offset); no Gallina binding is emitted
+                    if not init: self.err(v, 'byte pointer local %s without initialiser' % v.get('name'))
+                    binds = []
+                    base, off = self.ptr(init[0], env, binds, False)
+                    if binds: self.err(v, 'pointer initialiser with a read')
+                    env[v['id']] = {'ty': t, 'val': base, 'off': off, 'kind': 'ptr'}
+                    continue
+                if t[0] != 'int': self.err(v, 'local %s of non-integer type %s' % (v.get('name'), v['type']['qualType']))
                 if init:
                     binds = []
                     e = self.val(init[0], env, binds, False)
@@ -304,7 +374,9 @@ class Func:
             return self.emit_lets(lines, depth, lambda d: self.stmts(rest, env, d))
         if k == 'ReturnStmt':
             inner = s.get('inner', [])
-            if not inner: self.err(s, 'return without a value')
+            if not inner:
+                if self.ret_ty[0] != 'void': self.err(s, 'return without a value')
+                return self.ind(depth) + self.result(None, env)
             binds = []
             e = self.val(inner[0], env, binds, False)
             if parse_type(inner[0]['type']) != self.ret_ty: self.err(s, 'returned expression type differs from the return type')
@@ -331,6 +403,16 @@ class Func:
             lhs, rhs = s['inner']
             binds = []
             e = self.val(rhs, env, binds, False)
+            cell = self.array_cell(lhs, env)
+            if cell is not None:
+                did, idx = cell
+                if parse_type(rhs['type']) != env[did]['ty'][1] or parse_type(lhs['type']) != env[did]['ty'][1]:
+                    self.err(s, 'array cell assigned at a type other than its element type')
+                env = dict(env)
+                nm = self.fresh('%s_%d' % (env[did]['name_hint'], idx))
+                cells = dict(env[did]['cells']); cells[idx] = nm
+                env[did] = dict(env[did], cells=cells)
+                return self.emit_lets([(binds, nm, e)], depth, lambda d: self.stmts(rest, env, d))
             tgt = self.lvalue(lhs, env)
             if parse_type(rhs['type']) != env[tgt]['ty_cell']: self.err(s, 'assignment between different types')
             env = dict(env)
@@ -373,6 +455,19 @@ class Func:
         c = c['inner'][0]
         while c.get('kind') == 'ParenExpr': c = c['inner'][0]
         return c.get('kind') == 'IntegerLiteral'
+
+    def array_cell(self, lhs, env):
+        """`arr[k]` for an out-array parameter and a literal k -> (env key, k)"""
+        c = lhs
+        while c.get('kind') == 'ParenExpr': c = c['inner'][0]
+        if c.get('kind') != 'ArraySubscriptExpr': return None
+        b, i = c['inner']
+        while b.get('kind') in ('ParenExpr', 'ImplicitCastExpr'): b = b['inner'][0]
+        while i.get('kind') in ('ParenExpr', 'ImplicitCastExpr'): i = i['inner'][0]
+        if b.get('kind') == 'DeclRefExpr' and b['referencedDecl']['id'] in env and env[b['referencedDecl']['id']]['kind'] == 'outarr':
+            if i.get('kind') != 'IntegerLiteral': self.err(lhs, 'out-array subscript is not a literal')
+            return b['referencedDecl']['id'], int(i['value'])
+        self.err(lhs, 'assignment through a subscript of something that is not a write-only array parameter')
 
     def lvalue(self, lhs, env):
         """assignable things: an integer local/parameter, or *out for an out-parameter. Returns the env key."""
@@ -427,6 +522,13 @@ class Func:
                 a = self.cond(n['inner'][0], env, binds, lazy)
                 b = self.cond(n['inner'][1], env, binds, True)
                 return '(%s %s %s)' % (a, op, b)
+            if op in ('==', '!=') and parse_type(n['inner'][0]['type'])[0] == 'ptr':
+                # pointer compared with the null pointer constant only
+                a, b = n['inner']
+                if self.is_null(a): a, b = b, a
+                if not self.is_null(b): self.err(n, 'pointer comparison with something other than the null constant')
+                z = '(%s =? 0)' % self.ptr_addr(a, env, binds, lazy)
+                return z if op == '==' else 'negb ' + z
             if op in ('<', '<=', '>', '>=', '==', '!='):
                 ta, tb = parse_type(n['inner'][0]['type']), parse_type(n['inner'][1]['type'])
                 if ta != tb or ta[0] != 'int': self.err(n, 'comparison of operands of different or non-integer types')
@@ -442,8 +544,21 @@ class Func:
         if k == 'UnaryOperator' and n.get('opcode') == '!':
             return 'negb %s' % self.paren(self.cond(n['inner'][0], env, binds, lazy))
         t = parse_type(n['type'])
+        if t[0] == 'ptr': return 'negb (%s =? 0)' % self.ptr_addr(n, env, binds, lazy)
         if t[0] != 'int': self.err(n, 'condition of non-integer type')
         return 'negb (%s =? 0)' % self.paren(self.val(n, env, binds, lazy))
+
+    def is_null(self, n):
+        while n.get('kind') in ('ParenExpr', 'ImplicitCastExpr', 'CStyleCastExpr'):
+            if n.get('kind') != 'ParenExpr' and n.get('castKind') not in ('NullToPointer', 'NoOp', 'BitCast'): return False
+            n = n['inner'][0]
+        return n.get('kind') == 'IntegerLiteral' and n.get('value') == '0'
+
+    def ptr_addr(self, n, env, binds, lazy):
+        """numeric value of a byte pointer, for null tests: only pointers that have not been advanced"""
+        base, off = self.ptr(n, env, binds, lazy)
+        if off is not None: self.err(n, 'null test of an advanced pointer')
+        return 'p_addr %s' % self.paren(base)
 
     def val(self, n, env, binds, lazy):
         """translate an integer-typed rvalue to a Z expression"""
@@ -506,9 +621,14 @@ class Func:
             c = self.cond(n['inner'][0], env, binds, lazy)
             for s in n['inner'][1:]:
                 if parse_type(s['type']) != t: self.err(n, 'conditional operand type differs from result type')
-            a = self.val(n['inner'][1], env, binds, True)
-            b = self.val(n['inner'][2], env, binds, True)
-            return '(if %s then %s else %s)' % (c, a, b)
+            ba, bb = [], []
+            a = self.val(n['inner'][1], env, ba, False)
+            b = self.val(n['inner'][2], env, bb, False)
+            if not ba and not bb: return '(if %s then %s else %s)' % (c, a, b)
+            # a branch reads memory: the conditional is built at the option level, so that only the chosen branch reads
+            oa = self.with_binds(ba, 0, lambda d: 'Some %s' % self.paren(a)).replace('\n', ' ')
+            ob = self.with_binds(bb, 0, lambda d: 'Some %s' % self.paren(b)).replace('\n', ' ')
+            return self.bind(binds, lazy, n, '(if %s then %s else %s)' % (c, oa, ob), 'r')
         if k == 'CallExpr':
             cn = self.callee_name(n)
             args = n['inner'][1:]
@@ -545,8 +665,18 @@ class Func:
         if op in ('&', '|', '^'):
             f = {'&': 'Z.land', '|': 'Z.lor', '^': 'Z.lxor'}[op]
             return self.wrap(t, '%s %s %s' % (f, pa, pb))
+        if op in ('/', '%') and t[2]:
+            # signed: C truncates towards zero (Z.quot / Z.rem); two literals are folded here (exact)
+            la, lb = re.match(r'^\(?(-?[0-9]+)\)?$', a), re.match(r'^\(?(-?[0-9]+)\)?$', b)
+            if la and lb and int(lb.group(1)) != 0:
+                x, y = int(la.group(1)), int(lb.group(1))
+                q = abs(x) // abs(y) * (1 if (x >= 0) == (y >= 0) else -1)
+                v = q if op == '/' else x - q * y
+                lo, hi = -(1 << (t[1] - 1)), (1 << (t[1] - 1)) - 1
+                if not lo <= v <= hi: self.err(n, 'constant division overflows')
+                return str(v) if v >= 0 else '(%d)' % v
+            return self.wrap(t, '%s %s %s' % ({'/': 'Z.quot', '%': 'Z.rem'}[op], pa, pb))
         if op in ('/', '%'):
-            if t[2]: self.err(n, 'signed division / remainder')
             return self.wrap(t, '%s %s %s' % (pa, {'/': '/', '%': 'mod'}[op], pb))
         if op in ('<<', '>>'):
             if t[2] or ta != t: self.err(n, 'shift of a signed value')
@@ -578,13 +708,30 @@ class Func:
             if info['fields'][f] != t: self.err(lv, 'field %s used at a type other than its own' % f)
             return '%s%s %s' % (info['prefix'], f, self.paren(rec))
         if k == 'ArraySubscriptExpr':
-            if t != ('int', 8, False): self.err(lv, 'subscript read of an element type other than uint8_t')
-            base, off = self.ptr(c['inner'][0], env, binds, lazy, need_elem=('int', 8, False))
+            if t not in (('int', 8, False), ('int', 8, True)): self.err(lv, 'subscript read of an element type other than (u)int8 / char')
+            base, off = self.ptr(c['inner'][0], env, binds, lazy, need_elem=t)
             it = parse_type(c['inner'][1]['type'])
             if it[0] != 'int': self.err(lv, 'non-integer index')
             i = self.val(c['inner'][1], env, binds, lazy)
             pos = i if off is None else '%s + %s' % (self.paren(off), self.paren(i))
-            return self.bind(binds, lazy, lv, 'p_rd8 %s %s' % (self.paren(base), self.paren(pos)), 'r')
+            r = self.bind(binds, lazy, lv, 'p_rd8 %s %s' % (self.paren(base), self.paren(pos)), 'r')
+            return self.wrap(t, r) if t[2] else r        # the byte read as a (signed) char
+        if k == 'UnaryOperator' and c.get('opcode') == '*':
+            sub = c['inner'][0]
+            st = parse_type(sub['type'])
+            q = sub
+            while q.get('kind') in ('ParenExpr', 'ImplicitCastExpr'):
+                if q.get('kind') == 'ImplicitCastExpr' and q.get('castKind') != 'LValueToRValue': break
+                q = q['inner'][0]
+            if q.get('kind') == 'DeclRefExpr' and q['referencedDecl']['id'] in env and env[q['referencedDecl']['id']]['kind'] == 'out':
+                did = q['referencedDecl']['id']          # *out read back: the current content of the cell
+                if env[did]['ty'][1] != t: self.err(lv, 'out-parameter read at a type other than its own')
+                return self.getvar_raw(env, did)
+            if st[0] == 'ptr' and st[1] in (('int', 8, False), ('int', 8, True)) and st[1] == t:
+                base, off = self.ptr(sub, env, binds, lazy, need_elem=t)
+                r = self.bind(binds, lazy, lv, 'p_rd8 %s %s' % (self.paren(base), off if off is not None else '0'), 'r')
+                return self.wrap(t, r) if t[2] else r
+            self.err(lv, 'unsupported dereference')
         self.err(lv, 'unsupported lvalue')
 
     def structptr(self, n, env):
@@ -600,8 +747,8 @@ class Func:
         """byte pointer expression -> (cptr expression, offset expression | None). Pointer arithmetic only on uint8_t*."""
         k = n.get('kind')
         t = parse_type(n['type'])
-        if t[0] != 'ptr' or not (t[1][0] == 'void' or t[1] == ('int', 8, False)): self.err(n, 'unsupported pointer type')
-        if need_elem and t[1] != need_elem: self.err(n, 'pointer element type is not uint8_t')
+        if t[0] != 'ptr' or t[1] not in BYTE_ELEMS: self.err(n, 'unsupported pointer type')
+        if need_elem and t[1] != need_elem: self.err(n, 'pointer element type differs from the type read through it')
         if k == 'ParenExpr': return self.ptr(n['inner'][0], env, binds, lazy)
         if k in ('ImplicitCastExpr', 'CStyleCastExpr'):
             ck, sub = n.get('castKind'), n['inner'][0]
@@ -610,7 +757,9 @@ class Func:
                 while c.get('kind') == 'ParenExpr': c = c['inner'][0]
                 if c.get('kind') == 'DeclRefExpr':
                     did = c['referencedDecl']['id']
-                    if did in env and env[did]['kind'] == 'ptr': return env[did]['val'], None
+                    if did in env and env[did]['kind'] == 'ptr':
+                        if env[did]['val'] is None: self.err(n, 'use of an unassigned pointer')
+                        return env[did]['val'], env[did].get('off')
                     self.err(n, 'unsupported pointer variable')
                 if c.get('kind') == 'MemberExpr' and c.get('isArrow'):
                     rec = self.structptr(c['inner'][0], env)
@@ -623,9 +772,9 @@ class Func:
             self.err(n, 'unsupported pointer cast %s' % ck)
         if k == 'BinaryOperator' and n.get('opcode') == '+':
             a, b = n['inner']
-            if t[1] != ('int', 8, False): self.err(n, 'pointer arithmetic on a pointer that is not uint8_t *')
+            if t[1] not in (('int', 8, False), ('int', 8, True)): self.err(n, 'pointer arithmetic on a pointer whose element is not one byte')
             if parse_type(a['type'])[0] != 'ptr': a, b = b, a
-            base, off = self.ptr(a, env, binds, lazy, need_elem=('int', 8, False))
+            base, off = self.ptr(a, env, binds, lazy, need_elem=t[1])
             if parse_type(b['type'])[0] != 'int': self.err(n, 'pointer + non-integer')
             i = self.val(b, env, binds, lazy)
             return base, (i if off is None else '%s + %s' % (self.paren(off), self.paren(i)))
